@@ -387,3 +387,51 @@ Fixpoint in_time (D now : N) (script : list (N * bytes)) : Prop :=
   | [] => True
   | x :: rest => (now <= fst x)%N /\ (fst x < D)%N /\ in_time D (fst x) rest
   end.
+
+(* ------------------------------------------------------------------ the hypotheses of C04, decided *)
+
+Section SpecB.
+  Variable reveal : bytes -> list bytes.
+  Variable mark : reginfo -> bytes -> bytes.
+  Variable hs_ok : reginfo -> bytes -> bool.
+
+  Definition option_reg_is (o : option reginfo) (r : reginfo) : bool :=
+    match o with Some x => reginfo_eqb x r | None => false end.
+
+  Definition registeredb (R : registry) (r : reginfo) : bool := option_reg_is (lookup (r_ident r) R) r.
+
+  Definition client_flightb (tbl : list pfx) (R : registry) (t : tid) (r : reginfo) (fl data : bytes) : bool :=
+    match t with
+    | TMin => bytes_eqb fl (r_ident r) && (length fl =? min_tag_len)
+    | TPrefix =>
+      existsb (fun p => bytes_eqb (firstn (length (p_static p)) fl) (p_static p) &&
+                        (length fl =? length (p_static p) + tag_len) &&
+                        option_reg_is (first_reg (reveal (skipn (length (p_static p)) fl)) R) r &&
+                        ttype_eqb (r_tt r) KPrefix && option_eqb Z.eqb (r_pid r) (Some (p_id p))) tbl
+    | TObfs4 => match data with [] => true | _ => false end &&
+                (obfs4_min_handshake <=? length fl) && (length fl <=? obfs4_max_handshake) &&
+                option_reg_is (obfs4_hit mark R (firstn 32 fl) fl) r && hs_ok r fl
+    end.
+
+  Definition pres_is_found (x : pres) (r : reginfo) (c : nat) : bool :=
+    match x with PFound r' c' => reginfo_eqb r' r && (c' =? c) | _ => false end.
+
+  Definition unambiguousb (tbl : list pfx) (R : registry) (ts : list tid) (t : tid) (r : reginfo)
+             (fl s : bytes) : bool :=
+    let ks := seq 0 (S (length s)) in
+    forallb (fun t' => tid_eqb t' t ||
+                       forallb (fun k => negb (is_decisive (cwrap reveal mark hs_ok tbl R t' (firstn k s)))) ks) ts &&
+    match t with
+    | TMin => true
+    | TPrefix => forallb (fun p' => forallb (fun k => let x := classify reveal p' R (firstn k s) in
+                                                     negb (pres_decisive x) || pres_is_found x r (length fl)) ks) tbl
+    | TObfs4 => forallb (fun k => match obfs4_hit mark R (firstn 32 s) (firstn k s) with None => true | Some _ => false end)
+                        (seq 0 (length s))
+    end.
+
+  (* all hypotheses of C04_segmentation_invariance for one flight *)
+  Definition flight_hypsb (tbl : list pfx) (R : registry) (tracked : nat) (ts : list tid) (t : tid)
+             (r : reginfo) (fl data : bytes) : bool :=
+    prefix_table_wfb tbl && registeredb R r && (length R <=? tracked) && existsb (tid_eqb t) ts &&
+    client_flightb tbl R t r fl data && unambiguousb tbl R ts t r fl (fl ++ data).
+End SpecB.
